@@ -924,3 +924,221 @@ Lemma history_example :
     [resp 200 (Some s_app_json) (Json 0); resp 200 (Some s_app_json) (Json 1); resp 200 (Some s_app_json) (Json 1)]
   = [[]; [FBodySchema]; [FBodySchema]].
 Proof. vm_compute. reflexivity. Qed.
+
+(* ---------- header coercion: _coerce_header_value on header text ---------- *)
+Lemma in_bounds_iff lo hi z :
+  in_bounds lo hi z = true <-> (forall l, lo = Some l -> (l <= z)%Z) /\ (forall h, hi = Some h -> (z <= h)%Z).
+Proof.
+  unfold in_bounds. rewrite andb_true_iff. split.
+  - intros [Hl Hh]. split.
+    + intros l E. subst lo. apply Z.leb_le. exact Hl.
+    + intros h E. subst hi. apply Z.leb_le. exact Hh.
+  - intros [Hl Hh]. split.
+    + destruct lo as [l|]; [apply Z.leb_le; apply Hl; reflexivity | reflexivity].
+    + destruct hi as [h|]; [apply Z.leb_le; apply Hh; reflexivity | reflexivity].
+Qed.
+
+Lemma integer_header_iff lo hi text :
+  hdr_int_conforms lo hi text = true <->
+  exists z, py_int_u text = Some z /\ (forall l, lo = Some l -> (l <= z)%Z) /\ (forall h, hi = Some h -> (z <= h)%Z).
+Proof.
+  unfold hdr_int_conforms, coerce_header. destruct (py_int_u text) as [z|]; cbn [int_value_conforms].
+  - rewrite in_bounds_iff. split.
+    + intros H. exists z. split; [reflexivity | exact H].
+    + intros [z' [E H]]. inversion E. subst. exact H.
+  - split; [discriminate | intros [z [E _]]; discriminate].
+Qed.
+
+Lemma coerce_integer_cases text :
+  (exists z, py_int_u text = Some z /\ coerce_header TInteger text = HInt z)
+  \/ (py_int_u text = None /\ coerce_header TInteger text = HStr text).
+Proof.
+  unfold coerce_header. destruct (py_int_u text) as [z|].
+  - left. exists z. split; reflexivity.
+  - right. split; reflexivity.
+Qed.
+
+(* the decimal integer literals: digit groups joined by single underscores, with their exact value *)
+Inductive int_body : str -> N -> Prop :=
+| IB_one c d : decimal_of c = Some d -> int_body [c] d
+| IB_digit s n c d : int_body s n -> decimal_of c = Some d -> int_body (s ++ [c]) (n * 10 + d)
+| IB_us s n c d : int_body s n -> decimal_of c = Some d -> int_body (s ++ [95; c]) (n * 10 + d).
+
+Lemma decimal_of_us : decimal_of 95 = None.
+Proof. vm_compute. reflexivity. Qed.
+
+Lemma udigits_snoc s : forall acc pd n, udigits_val s acc pd = Some n ->
+  forall c d, decimal_of c = Some d ->
+  udigits_val (s ++ [c]) acc pd = Some (n * 10 + d) /\ udigits_val (s ++ [95; c]) acc pd = Some (n * 10 + d).
+Proof.
+  induction s as [|a s IH]; intros acc pd n H c d Hd.
+  - cbn [udigits_val] in H. destruct pd; [|discriminate]. inversion H; subst.
+    cbn [app udigits_val]. rewrite Hd, decimal_of_us. rewrite N.eqb_refl. cbn [andb udigits_val]. rewrite ?Hd.
+    split; reflexivity.
+  - cbn [app udigits_val] in *. destruct (decimal_of a); [apply IH; assumption|].
+    destruct ((a =? 95) && pd); [apply IH; assumption | discriminate].
+Qed.
+
+Lemma int_body_val s n : int_body s n -> udigits_val s 0 false = Some n.
+Proof.
+  induction 1 as [c d Hd | s n c d _ IH Hd | s n c d _ IH Hd].
+  - cbn [udigits_val]. rewrite Hd. reflexivity.
+  - exact (proj1 (udigits_snoc _ _ _ _ IH c d Hd)).
+  - exact (proj2 (udigits_snoc _ _ _ _ IH c d Hd)).
+Qed.
+
+Lemma int_body_head s n : int_body s n -> exists c r d, s = c :: r /\ decimal_of c = Some d.
+Proof.
+  induction 1 as [c d Hd | s n c d _ [c0 [r [d0 [E H0]]]] Hd | s n c d _ [c0 [r [d0 [E H0]]]] Hd].
+  - exists c, [], d. split; [reflexivity | exact Hd].
+  - subst s. exists c0, (r ++ [c]), d0. split; [reflexivity | exact H0].
+  - subst s. exists c0, (r ++ [95; c]), d0. split; [reflexivity | exact H0].
+Qed.
+
+Lemma int_body_last s n : int_body s n -> exists s' c d, s = s' ++ [c] /\ decimal_of c = Some d.
+Proof.
+  destruct 1 as [c d Hd | s n c d _ Hd | s n c d _ Hd].
+  - exists [], c, d. split; [reflexivity | exact Hd].
+  - exists s, c, d. split; [reflexivity | exact Hd].
+  - exists (s ++ [95]), c, d. split; [rewrite <- app_assoc; reflexivity | exact Hd].
+Qed.
+
+Lemma mem_in c l : mem c l = true -> In c l.
+Proof.
+  unfold mem. rewrite existsb_exists. intros [x [Hx E]]. apply N.eqb_eq in E. subst. exact Hx.
+Qed.
+
+Lemma ws_not_decimal : forallb (fun c => match decimal_of c with None => true | Some _ => false end) int_ws = true.
+Proof. vm_compute. reflexivity. Qed.
+
+Lemma decimal_not_ws c d : decimal_of c = Some d -> mem c int_ws = false.
+Proof.
+  intros Hd. destruct (mem c int_ws) eqn:E; [|reflexivity].
+  apply mem_in in E. pose proof (proj1 (forallb_forall _ _) ws_not_decimal c E) as H.
+  cbv beta in H. rewrite Hd in H. discriminate.
+Qed.
+
+Lemma strip_id wsl s h t s' c :
+  s = h :: t -> s = s' ++ [c] -> mem h wsl = false -> mem c wsl = false -> strip wsl s = s.
+Proof.
+  intros E1 E2 Hh Hc. unfold strip.
+  assert (A : strip_left wsl s = s) by (rewrite E1; cbn [strip_left]; rewrite Hh; reflexivity).
+  rewrite A.
+  assert (B : strip_left wsl (rev s) = rev s)
+    by (rewrite E2, rev_app_distr; cbn [rev app strip_left]; rewrite Hc; reflexivity).
+  rewrite B. apply rev_involutive.
+Qed.
+
+(* every literal is read, with or without a sign, as EXACTLY its value *)
+Lemma int_literal_sound body n : int_body body n ->
+  py_int_u body = Some (Z.of_N n) /\ py_int_u (43 :: body) = Some (Z.of_N n)
+  /\ py_int_u (45 :: body) = Some (Z.opp (Z.of_N n)).
+Proof.
+  intros Hb. pose proof (int_body_val _ _ Hb) as Hv.
+  destruct (int_body_head _ _ Hb) as [c [r [d [E Hd]]]].
+  destruct (int_body_last _ _ Hb) as [s' [c' [d' [E' Hd']]]].
+  pose proof (decimal_not_ws _ _ Hd) as Hc. pose proof (decimal_not_ws _ _ Hd') as Hc'.
+  repeat split.
+  - unfold py_int_u. rewrite (strip_id int_ws body c r s' c' E E' Hc Hc'). rewrite E in *.
+    destruct (c =? 43) eqn:E43; [apply N.eqb_eq in E43; subst c; vm_compute in Hd; discriminate|].
+    destruct (c =? 45) eqn:E45; [apply N.eqb_eq in E45; subst c; vm_compute in Hd; discriminate|].
+    rewrite Hv. reflexivity.
+  - unfold py_int_u.
+    rewrite (strip_id int_ws (43 :: body) 43 body (43 :: s') c' eq_refl); [| rewrite E'; reflexivity | reflexivity | exact Hc'].
+    rewrite N.eqb_refl. rewrite Hv. reflexivity.
+  - unfold py_int_u.
+    rewrite (strip_id int_ws (45 :: body) 45 body (45 :: s') c' eq_refl); [| rewrite E'; reflexivity | reflexivity | exact Hc'].
+    change (45 =? 43) with false. rewrite N.eqb_refl. rewrite Hv. reflexivity.
+Qed.
+
+Lemma udigits_charset s : forall acc pd n, udigits_val s acc pd = Some n ->
+  forall c, In c s -> decimal_of c <> None \/ c = 95.
+Proof.
+  induction s as [|a s IH]; intros acc pd n H c Hin; [destruct Hin|].
+  cbn [udigits_val] in H. destruct Hin as [->|Hin].
+  - destruct (decimal_of c) eqn:E; [left; discriminate|]. right.
+    destruct (c =? 95) eqn:E2; [apply N.eqb_eq; exact E2 | cbn in H; discriminate].
+  - destruct (decimal_of a); [eapply IH; eauto|].
+    destruct ((a =? 95) && pd); [eapply IH; eauto | discriminate].
+Qed.
+
+Lemma in_strip_left wsl s c : In c s -> mem c wsl = false -> In c (strip_left wsl s).
+Proof.
+  induction s as [|a s IH]; intros Hin Hm; [exact Hin|]. cbn [strip_left].
+  destruct (mem a wsl) eqn:E; [|exact Hin].
+  destruct Hin as [->|Hin]; [congruence | apply IH; assumption].
+Qed.
+
+Lemma in_strip wsl s c : In c s -> mem c wsl = false -> In c (strip wsl s).
+Proof.
+  intros Hin Hm. unfold strip. apply (proj1 (in_rev _ _)). apply in_strip_left; [|exact Hm].
+  apply (proj1 (in_rev _ _)). apply in_strip_left; assumption.
+Qed.
+
+(* a text containing any character that is not a decimal digit, an underscore, a sign or int() whitespace
+   is not an integer: it stays a string and fails type: integer *)
+Lemma int_rejects_char text c :
+  In c text -> mem c int_ws = false -> decimal_of c = None -> c <> 95 -> c <> 43 -> c <> 45 ->
+  py_int_u text = None.
+Proof.
+  intros Hin Hws Hd H95 H43 H45. unfold py_int_u.
+  pose proof (in_strip int_ws text c Hin Hws) as Hs.
+  destruct (strip int_ws text) as [|h r]; [reflexivity|].
+  assert (U : forall s acc pd, In c s -> udigits_val s acc pd = None).
+  { intros s acc pd Hc. destruct (udigits_val s acc pd) eqn:E; [|reflexivity].
+    destruct (udigits_charset _ _ _ _ E c Hc) as [X|X]; contradiction. }
+  destruct (h =? 43) eqn:E43.
+  - apply N.eqb_eq in E43. subst h. destruct Hs as [X|Hs]; [symmetry in X; contradiction|].
+    rewrite (U r 0 false Hs). reflexivity.
+  - destruct (h =? 45) eqn:E45.
+    + apply N.eqb_eq in E45. subst h. destruct Hs as [X|Hs]; [symmetry in X; contradiction|].
+      rewrite (U r 0 false Hs). reflexivity.
+    + rewrite (U (h :: r) 0 false Hs). reflexivity.
+Qed.
+
+Lemma int_rejects_exponent_and_point a b :
+  py_int_u (a ++ 101 :: b) = None /\ py_int_u (a ++ 69 :: b) = None /\ py_int_u (a ++ 46 :: b) = None.
+Proof.
+  repeat split; eapply int_rejects_char; try (apply in_elt); try (vm_compute; reflexivity); discriminate.
+Qed.
+
+Lemma integer_header_not_literal lo hi text :
+  py_int_u text = None -> coerce_header TInteger text = HStr text /\ hdr_int_conforms lo hi text = false.
+Proof. intros H. unfold hdr_int_conforms, coerce_header. rewrite H. split; reflexivity. Qed.
+
+(* witnesses for the through-float sentinel *)
+Definition t_1e3 : str := [49;101;51].
+Definition t_two53_plus1 : str := dec 9007199254740993.
+Definition t_two53_plus3 : str := dec 9007199254740995.
+Lemma through_float_refuted :
+  (hdr_int_conforms None None t_1e3 = false /\ hdr_int_conforms_through_float None None t_1e3 = true)
+  /\ (hdr_int_conforms None (Some two53) t_two53_plus1 = false
+      /\ hdr_int_conforms_through_float None (Some two53) t_two53_plus1 = true)
+  /\ (hdr_int_conforms None (Some 9007199254740995%Z) t_two53_plus3 = true
+      /\ hdr_int_conforms_through_float None (Some 9007199254740995%Z) t_two53_plus3 = false).
+Proof. vm_compute. repeat split; reflexivity. Qed.
+
+(* non-vacuity: sign, int() whitespace, underscores, leading zeros, non-ASCII decimal digits, and what is not a literal *)
+Lemma integer_header_examples :
+  coerce_header TInteger [160;43;49;95;48;48;48;32] = HInt 1000
+  /\ coerce_header TInteger [1636;1634] = HInt 42
+  /\ coerce_header TInteger [45;48;48;55] = HInt (-7)
+  /\ coerce_header TInteger [28;52;50] = HStr [28;52;50]
+  /\ coerce_header TInteger [49;95;95;48] = HStr [49;95;95;48]
+  /\ coerce_header TInteger [49;50;46;48] = HStr [49;50;46;48]
+  /\ coerce_header TInteger t_two53_plus1 = HInt 9007199254740993
+  /\ hdr_int_conforms (Some 10%Z) (Some 20%Z) [49;53] = true
+  /\ hdr_int_conforms (Some 10%Z) (Some 20%Z) [50;49] = false
+  /\ int_body [49;95;48;48;48] 1000
+  /\ coerce_header TBoolean [79;78] = HBool true
+  /\ coerce_header TBoolean [50] = HStr [50]
+  /\ coerce_header TNull [78;117;108;108] = HNull
+  /\ coerce_header TNumber [52;50] = HFloatOfInt 42.
+Proof.
+  repeat split; try (vm_compute; reflexivity).
+  change 1000 with (((1 * 10 + 0) * 10 + 0) * 10 + 0).
+  apply IB_digit with (s := [49;95;48;48]); [|vm_compute; reflexivity].
+  apply IB_digit with (s := [49;95;48]); [|vm_compute; reflexivity].
+  apply IB_us with (s := [49]); [|vm_compute; reflexivity].
+  apply IB_one. vm_compute. reflexivity.
+Qed.
